@@ -92,6 +92,7 @@ const alg_t ALGS[] = {
         { "docsis-aes-256-crc32", AK_AEAD, F_DOCSISCRC, IMB_CIPHER_DOCSIS_SEC_BPI, IMB_AUTH_DOCSIS_CRC32, 32, 0, 0, 0, L16, 1, IVS(16), TAGS(4), 0, 0, 0, LM_DOCSIS256CRC, 1, 1 },
         { "pon-aes-128", AK_AEAD, F_PON, IMB_CIPHER_PON_AES_CNTR, IMB_AUTH_PON_CRC_BIP, 16, 0, 0, 8, 16384, 4, IVS(16), TAGS(8), 0, 0, 0, LM_NONE, 0, 1 },
 };
+int algs_threaded;
 const int NALGS = (int) (sizeof ALGS / sizeof ALGS[0]);
 
 int
@@ -212,7 +213,8 @@ keyset_new_at(IMB_MGR *m, int keyid, void *mem)
         IMB_SNOW3G_INIT_KEY_SCHED(m, k->raw, (snow3g_key_schedule_t *) k->snow3g);
         IMB_KASUMI_INIT_F8_KEY_SCHED(m, k->raw, (kasumi_key_sched_t *) k->kas8);
         IMB_KASUMI_INIT_F9_KEY_SCHED(m, k->raw, (kasumi_key_sched_t *) k->kas9);
-        if (imb_get_errno(m) != 0)
+        /* (with several threads the process-wide error mirror may carry another manager's code) */
+        if (!algs_threaded && imb_get_errno(m) != 0)
                 DIE("key preparation failed: errno %d", imb_get_errno(m));
         return k;
 }
